@@ -181,6 +181,11 @@ let load_ranges path =
 let out id stage text = Printf.printf "%s\t%s\t%s\n" id stage text
 let opt f = function Some x -> f x | None -> "!ERR"
 
+let ws_model : (int * int) array ref = ref [||]
+let is_ws_model (c : cp) : bool =
+  let c = int_of_n c in
+  Array.exists (fun (x, y) -> x <= c && c <= y) !ws_model
+
 (* a case line:  id \t flags \t mr \t ms \t sc \t tcs \t odb [\t stage=text]*   *)
 let run_case line =
   match String.split_on_char '\t' line with
@@ -215,6 +220,15 @@ let run_case line =
       let e1 = (match mn with Some d -> expr_from c d | None -> None) in
       out id "expr" (opt ser_expr e1);
       out id "sc_ok" (if (not (c.f_no_start && c.f_no_end)) || sc_admissible c sc then "1" else "0");
+      (* F inside the model (Model/SelfCheck.v): the outcome computed from the reference semantics, and the two
+         candidate strings handed to Regex::new, for the verdicts of the optimised engine *)
+      if c.f_no_start && c.f_no_end then begin
+        let name = function SCSkipped -> "skipped" | SCPass1 -> "pass1" | SCPass2 -> "pass2" | SCFail -> "fail" in
+        out id "sc_ref" (match sc_ref is_digit_engine is_ws_model c cr norm with Some s -> name s | None -> "!ERR");
+        out id "cand1" (match e1 with Some e -> ser_str (cand1_str is_digit_engine c e) | None -> "!ERR");
+        out id "cand2" (match (match dfa_from cr false with Some d -> expr_from c d | None -> None) with
+                        | Some e -> ser_str (cand_str is_digit_engine c e) | None -> "!ERR")
+      end;
       let fe = final_expr c cr sc in
       out id "final" (opt ser_expr fe);
       out id "out" (opt (fun e -> ser_str (regexp_str is_digit_engine c e)) fe);
@@ -312,16 +326,34 @@ let match_mode dir =
                                 (match find_first_engine fl.fl_i h r with
                                  | None -> "-"
                                  | Some (i, j) -> Printf.sprintf "%d:%d" (int_of_nat i) (int_of_nat j)) in
-                     Printf.sprintf "%s/%s/%s" (if full then "1" else "0") fnd fst_) hs)))
+                     let cnt = if not (rep_bodies_ok r) then "?" else string_of_int (int_of_nat (find_iter_count_engine fl.fl_i h r)) in
+                     Printf.sprintf "%s/%s/%s/%s" (if full then "1" else "0") fnd fst_ cnt) hs)))
+        | _ -> print_endline "BAD")
+     done with End_of_file -> ());
+  flush stdout
+
+(* --scdecide: the control flow of the self-check (Model/SelfCheck.sc_decide) applied to verdicts measured elsewhere
+   (the optimised engine's). line: ntc v1 v2, verdicts 1 / 0 / - (does not compile) *)
+let scdecide_mode () =
+  (try while true do
+       let l = input_line stdin in
+       (match String.split_on_char ' ' (String.trim l) with
+        | [n; v1; v2] ->
+            let v = function "1" -> Some true | "0" -> Some false | _ -> None in
+            let name = function SCSkipped -> "skipped" | SCPass1 -> "pass1" | SCPass2 -> "pass2" | SCFail -> "fail" in
+            print_endline (name (sc_decide (nat_of_int (int_of_string n)) (v v1) (fun () -> v v2)))
         | _ -> print_endline "BAD")
      done with End_of_file -> ());
   flush stdout
 
 let () =
   if Array.length Sys.argv > 1 && Sys.argv.(1) = "--lines" then (lines_mode (); exit 0);
+  if Array.length Sys.argv > 1 && Sys.argv.(1) = "--scdecide" then (scdecide_mode (); exit 0);
   if Array.length Sys.argv > 2 && Sys.argv.(1) = "--match" then (match_mode Sys.argv.(2); exit 0);
   if Array.length Sys.argv > 2 && Sys.argv.(1) = "--ast" then (ws_table := load_ranges Sys.argv.(2); ast_mode (); exit 0);
   engine_d := load_ranges Sys.argv.(1);
+  (let wsf = Filename.concat (Filename.dirname Sys.argv.(1)) "std_ws.txt" in
+   if Sys.file_exists wsf then ws_model := load_ranges wsf);
   (try while true do
        let l = input_line stdin in
        if String.trim l <> "" then
